@@ -1260,7 +1260,37 @@ class Engine:
         return [(st, Out("continue"))]
 
     def s_Delete(self, node, st):
-        raise Unsupported("del")
+        outs = [(st, Out("next"))]
+        for tgt in node.targets:
+            nxt = []
+            for s, o in outs:
+                if o.kind != "next":
+                    nxt.append((s, o))
+                    continue
+                if isinstance(tgt, ast.Name):
+                    s.env.pop(tgt.id, None)
+                    nxt.append((s, o))
+                elif isinstance(tgt, ast.Subscript):
+                    for s2, vals, e in self.eval_seq([tgt.value, tgt.slice], s):
+                        if e:
+                            nxt.append(self._raise_out(s2, e))
+                            continue
+                        obj, key = vals
+                        if isinstance(obj, Ref) and isinstance(s2.heap[obj.n], HDict) and s2.heap[obj.n].sym is None and not is_z3(key):
+                            if key in s2.heap[obj.n].items:
+                                del s2.heap[obj.n].items[key]
+                                nxt.append((s2, Out("next")))
+                            else:
+                                nxt.append((s2, Out("raise", ExcV("KeyError"))))
+                        elif is_z3(obj) and obj.sort() == U:
+                            for s3, _, e3 in self.effect(s2, "__delitem__", (obj, key), {}, ast.unparse(tgt), may_raise=True):
+                                nxt.append(self._raise_out(s3, e3) if e3 else (s3, Out("next")))
+                        else:
+                            raise Unsupported("del of this subscript")
+                else:
+                    raise Unsupported("del target")
+            outs = nxt
+        return outs
 
     # ------------------------------------------------------------------ sequences
     def as_seq(self, st, v):
